@@ -23,6 +23,8 @@ type c40Datum struct {
 	Must   bool     // has to be accepted by the endpoint unless its request is answered non-recoverably
 	Opt    bool     // may or may not be sent (written before the queue manager started); never set together with Must
 	Why    []string // reasons it must not be sent at all (empty when Must)
+	Inc    uint64   // WAL part: the head's series ref at append time. A series that was garbage collected by the
+	// head and written again is a new WAL series (new ref); remote write orders per WAL series.
 	Op     int
 }
 
@@ -178,6 +180,8 @@ type c40Obs struct {
 	ReshardPending []int              // per accepted reshard: data fed as "must" and not yet answered at that moment
 	Counters       map[string]float64 `json:",omitempty"`
 	Panic          string             `json:",omitempty"`
+	FeedT          []int64            `json:",omitempty"` // ageing part: timestamps actually fed, per datum
+	FeedRef        []uint64           `json:",omitempty"` // WAL part: series ref the head returned, per datum
 	Classes        []string           `json:",omitempty"` // what the driver saw happen (WAL part: truncations, checkpoints, ...)
 	StopMs         int64
 	TotalMs        int64
@@ -288,8 +292,9 @@ func c40CheckHistory(m *c40Model, name func(int) string, o *c40Obs, droppedCount
 	}
 	// per-series order over the accepted requests, in arrival order
 	type key struct {
-		s int
-		c string
+		s   int
+		inc uint64
+		c   string
 	}
 	last := map[key]int{}
 	for qi, q := range reqs {
@@ -298,7 +303,7 @@ func c40CheckHistory(m *c40Model, name func(int) string, o *c40Obs, droppedCount
 		}
 		for _, d := range q.Data {
 			md := m.Data[d.G-1]
-			k := key{md.Series, class(md.Kind)}
+			k := key{md.Series, md.Inc, class(md.Kind)}
 			if prev := last[k]; prev > md.G {
 				return ev.Failf("series %s: %s accepted (request %d, arrival event %d) after the later %s",
 					name(md.Series), describe(md), qi, q.Arr, describe(m.Data[prev-1]))
@@ -313,7 +318,7 @@ func c40CheckHistory(m *c40Model, name func(int) string, o *c40Obs, droppedCount
 		seen := map[key]bool{}
 		for _, d := range q.Data {
 			md := m.Data[d.G-1]
-			k := key{md.Series, class(md.Kind)}
+			k := key{md.Series, md.Inc, class(md.Kind)}
 			if seen[k] {
 				continue
 			}
